@@ -24,6 +24,8 @@ def gen_history(rng, tier):
         foreign = rng.random() < 0.35
         for _ in range(lim + rng.randint(2, 6)):
             ops.append(["run", lim])
+            if rng.random() < 0.06:
+                ops.append(["drop"])
             if rng.random() < 0.08:
                 k = rng.randint(1, lim + 1)
                 ops.append(["delete", k])
@@ -36,6 +38,7 @@ def gen_history(rng, tier):
     ops = []
     p_foreign = rng.choice([0.0, 0.0, 0.08, 0.15])
     p_relink = rng.choice([0.0, 0.0, 0.0, 0.1])
+    p_drop = rng.choice([0.0, 0.0, 0.08, 0.15])
     for _ in range(n):
         if ops and rng.random() < p_foreign:
             # an entry of reports/ that is NOT an archive slot although its name begins like one: a packed or renamed archive,
@@ -46,6 +49,9 @@ def gen_history(rng, tier):
         elif ops and rng.random() < p_relink:
             # the user moved report/ elsewhere (another disk) and linked it back: still the current report, archived next time
             ops.append(["relink"])
+        elif ops and rng.random() < p_drop:
+            # the user removed report/ (or moved it out of the project): the next run has nothing to archive and must purge nothing
+            ops.append(["drop"])
         elif rng.random() < 0.72 or not ops:
             ops.append(["run", lim if fixed else rng.choice(LIMITS)])
         else:
@@ -115,6 +121,15 @@ def run_history(ops, via_project=False):
                 facts.append({"foreign": dict(made), "foreign_now": foreign_state(top, made)})
                 obs.append(observe(top))
                 continue
+            if op[0] == "drop":
+                rd = os.path.join(top, "report")
+                if os.path.islink(rd):
+                    os.remove(rd)
+                else:
+                    shutil.rmtree(rd, ignore_errors=True)
+                facts.append({"foreign": dict(made), "foreign_now": foreign_state(top, made)})
+                obs.append(observe(top))
+                continue
             if op[0] == "foreign":
                 os.makedirs(os.path.join(top, "reports"), exist_ok=True)
                 p = os.path.join(top, "reports", op[1])
@@ -178,6 +193,9 @@ def oracle(ops, obs, facts):
         if op[0] in ("foreign", "relink"):
             if cur != pcur or arch != parch:
                 return ("foreign-entry-changed-archives", "creating %s changed the report or an archive" % op[1], i)
+        elif op[0] == "drop":
+            if cur is not None or arch != parch:
+                return ("drop-not-exact", "removing report/ changed something else", i)
         elif op[0] == "delete":
             want = [a for a in parch if a[0] != op[1]]
             if cur != pcur or arch != want:
@@ -236,7 +254,7 @@ def shrink(ops, pred):
 
 # ----------------------------------------------------------------------------- Gallina
 def c_op(op):
-    return "Run %s" % c_opt(op[1], c_nat) if op[0] == "run" else "Delete %s" % c_nat(op[1])
+    return "Run %s" % c_opt(op[1], c_nat) if op[0] == "run" else "Drop" if op[0] == "drop" else "Delete %s" % c_nat(op[1])
 
 
 def c_obs(o):
@@ -269,7 +287,7 @@ def check(run):
         "modelled, not verified: glob listing, os.rename, shutil.rmtree, os.mkdir on a POSIX file system "
         "(Model/ReportDir.v abstracts the directories reports/report-<k> as an association list k -> content marker)",
     ]
-    run.assume += ["only `lcc run` and manual deletion of whole reports/report-<k> directories touch the project directory",
+    run.assume += ["only `lcc run`, manual deletion of whole reports/report-<k> directories and removal of report/ itself touch the project directory",
                    "POSIX platform (the Windows branch and report_dir_with_archiving are not modelled)"]
     run.prove(extra_targets=["theories/Base/Util.vo", "theories/Model/ReportDir.vo"])
     n = 300 if run.tier == "quick" else 20000
@@ -284,6 +302,9 @@ def check(run):
         run.count("deletes", sum(1 for o in ops if o[0] == "delete"))
         run.count("foreign_entries", sum(1 for o in ops if o[0] == "foreign"))
         run.count("report_moved_and_linked_back", sum(1 for o in ops if o[0] == "relink"))
+        run.count("report_removed_by_hand", sum(1 for o in ops if o[0] == "drop"))
+        if any(ops[j][0] == "run" and j and obs[j - 1][0] is None and obs[j - 1][1] for j in range(1, min(len(ops), len(obs))) if obs[j - 1][0] != "exception"):
+            run.count("runs_started_without_report_but_with_archives")
         if any(o[0] == "foreign" for o in ops):
             run.count("histories_with_foreign_entries")
         # non-trivial: some run actually removed an archive, or rotated over a hole
@@ -318,7 +339,7 @@ def check(run):
                 ops, obs = shards[k][idx]
                 small = ops if run.oracle_hits else shrink(ops[:12], lambda c: model_disagrees(run, c)) if model_disagrees(run, ops[:12]) else ops
                 run.tie_broken("exec_trace = observed directory listings", case=small, impl=run_history(small)[0])
-    run.coverage["rule"] = ("seeded random histories (4%: 22-26 runs without any limit) of run(limit)/delete(k)/foreign(name) -- entries of reports/ named report-<k><suffix> (packed or renamed archives, files and directories) that are no archive slots --, limits in {none,0,1,2,3,4,10,11,12,20}, 20% of the histories fill every slot of one limit and purge several times; every history is "
+    run.coverage["rule"] = ("seeded random histories (4%: 22-26 runs without any limit) of run(limit)/delete(k)/drop (report/ removed by hand)/foreign(name) -- entries of reports/ named report-<k><suffix> (packed or renamed archives, files and directories) that are no archive slots --, limits in {none,0,1,2,3,4,10,11,12,20}, 20% of the histories fill every slot of one limit and purge several times; every history is "
                             "executed by the real create_report_dir_with_rotation (30% through Project.create_report_dir when "
                             "limit=20) on a scratch directory with marker files and by Model.ReportDir.exec_trace inside Coq; "
                             "non-trivial = a run that removed at least one archive")
